@@ -7,6 +7,7 @@ package main
 import (
 	"fmt"
 	"os"
+	"path/filepath"
 	"sort"
 	"strconv"
 	"strings"
@@ -20,6 +21,7 @@ import (
 	cfg "github.com/tendermint/tendermint/config"
 	"github.com/tendermint/tendermint/consensus"
 	"github.com/tendermint/tendermint/crypto/ed25519"
+	"github.com/tendermint/tendermint/evidence"
 	"github.com/tendermint/tendermint/libs/log"
 	mpmock "github.com/tendermint/tendermint/mempool/mock"
 	"github.com/tendermint/tendermint/p2p"
@@ -81,6 +83,7 @@ type node struct {
 	pa    proxy.AppConns
 	cs    *consensus.State
 	be    *sm.BlockExecutor
+	evp   *evidence.Pool
 	lg    *capLogger
 	peers []*hpeer
 }
@@ -108,10 +111,62 @@ func newNode(ch *chain) (*node, error) {
 	if err := n.pa.Start(); err != nil {
 		return nil, err
 	}
-	n.be = sm.NewBlockExecutor(n.ss, log.NewNopLogger(), n.pa.Consensus(), mpmock.Mempool{}, sm.EmptyEvidencePool{})
-	n.cs = consensus.NewState(cfg.DefaultConsensusConfig(), state.Copy(), n.be, n.bs, mpmock.Mempool{}, sm.EmptyEvidencePool{})
+	// a real evidence pool on the node's own stores: ValidateBlock asks it about block evidence
+	var err error
+	if n.evp, err = evidence.NewPool(dbm.NewMemDB(), n.ss, n.bs); err != nil {
+		return nil, err
+	}
+	n.be = sm.NewBlockExecutor(n.ss, log.NewNopLogger(), n.pa.Consensus(), mpmock.Mempool{}, n.evp)
+	n.cs = consensus.NewState(cfg.DefaultConsensusConfig(), state.Copy(), n.be, n.bs, mpmock.Mempool{}, n.evp)
 	n.reactor(state)
 	return n, nil
+}
+
+// switchToConsensus is the hand-over as the node does it: a consensus State created at start-up
+// (genesis state) behind a real consensus Reactor, whose SwitchToConsensus(state) reconstructs
+// the last commit, updates to the synced state and starts consensus. Returns "ok" when consensus
+// runs with a LastCommit that verifies against state.LastValidators.
+func (n *node) switchToConsensus(state sm.State) (res string) {
+	dir, err := os.MkdirTemp("", "c13-wal")
+	if err != nil {
+		return "tmp-error"
+	}
+	defer os.RemoveAll(dir)
+	ccfg := cfg.DefaultConsensusConfig()
+	ccfg.RootDir = dir
+	ccfg.WalPath = filepath.Join("data", "cs.wal", "wal")
+	cs := consensus.NewState(ccfg, n.ch.states[n.ch.ih-1].Copy(), n.be, n.bs, mpmock.Mempool{}, n.evp)
+	eb := types.NewEventBus()
+	if err := eb.Start(); err != nil {
+		return "eventbus-error"
+	}
+	defer eb.Stop() //nolint:errcheck
+	cs.SetEventBus(eb)
+	conR := consensus.NewReactor(cs, true)
+	conR.SetEventBus(eb)
+	started := false
+	defer func() {
+		if r := recover(); r != nil {
+			res = classifyHandover(fmt.Sprint(r))
+		}
+		if started || cs.IsRunning() {
+			_ = cs.Stop()
+			cs.Wait()
+		}
+	}()
+	conR.SwitchToConsensus(state, true)
+	started = true
+	rs := cs.GetRoundState()
+	if state.LastBlockHeight > 0 {
+		if rs.LastCommit == nil || !rs.LastCommit.HasTwoThirdsMajority() {
+			return "ok-but-no-lastcommit"
+		}
+		c := rs.LastCommit.MakeCommit()
+		if err := state.LastValidators.VerifyCommit(chainID, c.BlockID, state.LastBlockHeight, c); err != nil {
+			return "ok-but-lastcommit-invalid"
+		}
+	}
+	return "ok"
 }
 
 // reactor builds reactor, pool and switch on the node's stores (what node start-up does)
@@ -140,7 +195,7 @@ func (n *node) restart() string {
 				msg = fmt.Sprint(r)
 			}
 		}()
-		cs = consensus.NewState(cfg.DefaultConsensusConfig(), state.Copy(), n.be, n.bs, mpmock.Mempool{}, sm.EmptyEvidencePool{})
+		cs = consensus.NewState(cfg.DefaultConsensusConfig(), state.Copy(), n.be, n.bs, mpmock.Mempool{}, n.evp)
 	}()
 	if msg != "" {
 		return classifyHandover(msg) + n.tipQ(state)
@@ -167,7 +222,19 @@ func (n *node) tipQ(state sm.State) string {
 		}
 		ok = 3*got > 2*vs.TotalVotingPower()
 	}
-	return fmt.Sprintf(" tipq=%v", ok)
+	clean := sc != nil && vs != nil && len(sc.Signatures) == len(vs.Validators)
+	if clean {
+		for i, v := range vs.Validators {
+			s := sc.Signatures[i]
+			if s.Absent() {
+				continue
+			}
+			if string(s.ValidatorAddress) != string(v.Address) || !v.PubKey.VerifySignature(sc.VoteSignBytes(chainID, int32(i)), s.Signature) {
+				clean = false
+			}
+		}
+	}
+	return fmt.Sprintf(" tipq=%v tipclean=%v", ok, clean)
 }
 
 func (n *node) stopNet() {
@@ -243,7 +310,9 @@ func classifyErr(s string) string {
 		return "v-height"
 	case strings.Contains(s, "wrong Block.Header.LastBlockID"):
 		return "v-lastblockid"
-	case strings.Contains(s, "wrong Block.Header.AppHash"):
+	case strings.Contains(s, "wrong Block.Header.AppHash"), strings.Contains(s, "wrong Block.Header.ConsensusHash"),
+		strings.Contains(s, "wrong Block.Header.LastResultsHash"), strings.Contains(s, "wrong Block.Header.ValidatorsHash"),
+		strings.Contains(s, "block time"), strings.Contains(s, "vidence"), strings.Contains(s, "don't have header"):
 		return "v-flaw"
 	case strings.Contains(s, "initial block can't have LastCommit"):
 		return "v-initialcommit"
@@ -438,7 +507,15 @@ func (n *node) op(op string) string {
 			}
 			return n.lg.count() > e0
 		}
-		if v0.VerifRunPoolRoutine(n.bcR, state, until, 800*time.Millisecond) {
+		timedOut, panicked := v0.VerifRunPoolRoutineP(n.bcR, state, until, 800*time.Millisecond)
+		if panicked != "" {
+			// in a node this takes the process down; the stores keep what was written before
+			if strings.Contains(panicked, "Failed to process committed block") {
+				return "panic-apply"
+			}
+			return "panic:" + strings.ReplaceAll(panicked, " ", "_")
+		}
+		if timedOut {
 			return "process-timeout"
 		}
 		n.drain()
@@ -530,14 +607,11 @@ func (n *node) op(op string) string {
 		if err != nil {
 			return "state-error"
 		}
-		if state.LastBlockHeight > 0 {
-			r := classifyHandover(consensus.VerifReconstructLastCommit(n.cs, state))
-			if r != "ok" {
-				r += n.tipQ(state)
-			}
-			return r
+		r := n.switchToConsensus(state)
+		if strings.HasPrefix(r, "panic-") {
+			r += n.tipQ(state)
 		}
-		return "ok"
+		return r
 	}
 	return "bad-op"
 }
